@@ -63,6 +63,11 @@ KeySet ==
     [] KeySetName = "dots"     -> {<<46>>, <<46, 46>>, <<97, 47, 46, 46, 47, 98>>, <<98>>, <<97, 47, 47, 98>>}  \* .  ..  a/../b  b  a//b
     \* keys made of the bytes of their bucket's name: b  bkt1  1/t
     [] KeySetName = "bname" -> {<<98>>, <<98, 107, 116, 49>>, <<49, 47, 116>>}
+    \* two levels of directories sharing the first: d/e/x  d/y  a
+    [] KeySetName = "deep"  -> {<<100, 47, 101, 47, 120>>, <<100, 47, 121>>, <<97>>}
+    \* a key that is the directory of another key: d is never written (the fs backends cannot hold both), but it is
+    \* read and deleted like any other never-written key
+    [] KeySetName = "dirkey" -> {<<100>>, <<100, 47, 101>>, <<100, 47, 120>>, <<100, 47, 101, 47, 120>>}   \* d  d/e  d/x  d/e/x
     [] KeySetName = "coll"  -> {<<100, 47, 120>>, <<100, 95, 120>>, <<100, 92, 120>>}            \* d/x, d_x, d\x
     [] KeySetName = "list"  -> {<<97>>, <<97, 47, 49>>, <<97, 45, 98>>, <<98>>} \* a, a/1, a-b, b
 
@@ -96,10 +101,13 @@ ListOp(b, d) == [op |-> "ListObjects", b |-> b, v2 |-> FALSE, prefix |-> <<>>, d
 MetaA == [m1 |-> "A"]
 MetaB == [ct |-> "T", ce |-> "E", cd |-> "D", m2 |-> "B"]
 MetaC == [ct |-> "U", m2 |-> "C", m3 |-> "C"]      \* a copy that brings its own, different, metadata
+MetaE == [m1 |-> "", m2 |-> ""]                    \* user metadata sent with empty values
 
 \* every version id a client could know: the ones replies revealed
 KnownVids(s, b, k) == IF HasB(s, b) THEN {v.vid : v \in {x \in ToSet(Stack(s, b, k)) : ~x.nul /\ SubSeq(x.vid, 1, 1) # "?"}} ELSE {}
 
+\* keys that write operations may address
+WKeySet == IF KeySetName = "dirkey" THEN KeySet \ {<<100>>, <<100, 47, 101>>} ELSE KeySet
 KeySubsets == SUBSET KeySet \ {{}}
 SeqOfSet(S) == SetToSortSeq(S, LexLess)
 
@@ -112,18 +120,22 @@ Ops(s) ==
 \cup (IF On("ForceDelete")  THEN {[op |-> "DeleteBucket", b |-> b, force |-> TRUE] : b \in Buckets} ELSE {})
 \cup (IF On("CondGet")      THEN {[op |-> o, b |-> b, k |-> k, inm |-> bd]
                                     : o \in {"GetObject", "HeadObject"}, b \in Buckets, k \in KeySet, bd \in BodySet} ELSE {})
+\cup (IF On("CondGet")      THEN {[op |-> o, b |-> b, k |-> k, ims |-> w]
+                                    : o \in {"GetObject", "HeadObject"}, b \in Buckets, k \in KeySet, w \in {"past", "future"}} ELSE {})
 \cup (IF On("ListBuckets")  THEN {[op |-> "ListBuckets"]} ELSE {})
 \cup (IF On("GetLocation")  THEN {[op |-> "GetLocation", b |-> b] : b \in Buckets} ELSE {})
 \cup (IF On("PutObject")    THEN {[op |-> "PutObject", b |-> b, k |-> k, body |-> bd, meta |-> NoMeta, vid |-> NextVid(s)]
-                                    : b \in Buckets, k \in KeySet, bd \in BodySet} ELSE {})
+                                    : b \in Buckets, k \in WKeySet, bd \in BodySet} ELSE {})
 \cup (IF On("PutMeta")      THEN {[op |-> "PutObject", b |-> b, k |-> k, body |-> bd, meta |-> MetaA, vid |-> NextVid(s)]
-                                    : b \in Buckets, k \in KeySet, bd \in BodySet} ELSE {})
+                                    : b \in Buckets, k \in WKeySet, bd \in BodySet} ELSE {})
 \cup (IF On("PutMetaB")     THEN {[op |-> "PutObject", b |-> b, k |-> k, body |-> bd, meta |-> MetaB, vid |-> NextVid(s)]
-                                    : b \in Buckets, k \in KeySet, bd \in BodySet} ELSE {})
+                                    : b \in Buckets, k \in WKeySet, bd \in BodySet} ELSE {})
+\cup (IF On("PutMetaE")     THEN {[op |-> "PutObject", b |-> b, k |-> k, body |-> bd, meta |-> MetaE, vid |-> NextVid(s)]
+                                    : b \in Buckets, k \in WKeySet, bd \in BodySet} ELSE {})
 \cup (IF On("PostMeta")     THEN {[op |-> "PostObject", b |-> b, k |-> k, body |-> bd, meta |-> MetaA, vid |-> NextVid(s)]
-                                    : b \in Buckets, k \in KeySet, bd \in BodySet} ELSE {})
+                                    : b \in Buckets, k \in WKeySet, bd \in BodySet} ELSE {})
 \cup (IF On("PostObject")   THEN {[op |-> "PostObject", b |-> b, k |-> k, body |-> bd, meta |-> NoMeta, vid |-> NextVid(s)]
-                                    : b \in Buckets, k \in KeySet, bd \in BodySet} ELSE {})
+                                    : b \in Buckets, k \in WKeySet, bd \in BodySet} ELSE {})
 \cup (IF On("GetObject")    THEN {[op |-> "GetObject", b |-> b, k |-> k] : b \in Buckets, k \in KeySet} ELSE {})
 \cup (IF On("HeadObject")   THEN {[op |-> "HeadObject", b |-> b, k |-> k] : b \in Buckets, k \in KeySet} ELSE {})
 \cup (IF On("DeleteObject") THEN {[op |-> "DeleteObject", b |-> b, k |-> k,
@@ -133,9 +145,9 @@ Ops(s) ==
                                      objs |-> [i \in 1..Cardinality(ks) |-> [k |-> SeqOfSet(ks)[i], vid |-> ""]]]
                                     : b \in Buckets, ks \in KeySubsets} ELSE {})
 \cup (IF On("CopyObject")   THEN {[op |-> "CopyObject", sb |-> sb, sk |-> sk, b |-> b, k |-> k, meta |-> NoMeta]
-                                    : sb \in Buckets, sk \in KeySet, b \in Buckets, k \in KeySet} ELSE {})
+                                    : sb \in Buckets, sk \in KeySet, b \in Buckets, k \in WKeySet} ELSE {})
 \cup (IF On("CopyMeta")     THEN {[op |-> "CopyObject", sb |-> sb, sk |-> sk, b |-> b, k |-> k, meta |-> MetaC]
-                                    : sb \in Buckets, sk \in KeySet, b \in Buckets, k \in KeySet} ELSE {})
+                                    : sb \in Buckets, sk \in KeySet, b \in Buckets, k \in WKeySet} ELSE {})
 \cup (IF On("ListObjects")  THEN {[op |-> "ListObjects", b |-> b, v2 |-> v2, prefix |-> <<>>, delim |-> d,
                                      max |-> 0, marker |-> <<>>, hasMarker |-> FALSE]
                                     : b \in Buckets, v2 \in BOOLEAN, d \in {<<>>, <<47>>}} ELSE {})
@@ -166,7 +178,7 @@ PartLists == {l \in UNION {ListsOfLen(n) : n \in 1..MaxList} : DistinctNs(l)}
 
 MpOps(s) ==
      (IF On("Initiate") /\ Cardinality(s.uids) < MaxUploads
-        THEN {[op |-> "Initiate", b |-> b, k |-> k, meta |-> MetaA, uid |-> NextUid(s)] : b \in Buckets, k \in KeySet} ELSE {})
+        THEN {[op |-> "Initiate", b |-> b, k |-> k, meta |-> MetaA, uid |-> NextUid(s)] : b \in Buckets, k \in WKeySet} ELSE {})
 \cup (IF On("UploadPart")
         THEN {[op |-> "UploadPart", b |-> b, k |-> k, uid |-> u, n |-> n, body |-> <<pb>>]
                 : b \in Buckets, k \in KeySet, u \in KnownUids(s), n \in PartNums, pb \in PartBodies} ELSE {})
